@@ -83,7 +83,10 @@ static void handler(const unsigned char *req, size_t n, vbuf *resp, void *user) 
 			else { rsig c2; rp_extend(&c2, S.root, S.root_len, r.aggr_time - 1, P); c2.cal_aggr_time = r.aggr_time; cal = c2; }
 			break;
 		case R_OTHER_INPUT: cal.cal_input[cal.cal_input_len - 1] ^= 1; break;
-		case R_RIGHT_ALTERED: { int k = S.sub, hit = 0; for (i = 0; i < cal.ncal; i++) if (!cal.cal[i].is_left && k-- == 0) { cal.cal[i].sib[5] ^= 1; hit = 1; break; } if (!hit) for (i = 0; i < cal.ncal; i++) if (!cal.cal[i].is_left) { cal.cal[i].sib[5] ^= 1; break; } break; }
+		case R_RIGHT_ALTERED: { int k = S.sub, hit = 0;   /* sub 0: the first right link, 1: the LAST one, 2 / 3: the second / third */
+			if (S.sub == 1) { for (i = cal.ncal - 1; i >= 0; i--) if (!cal.cal[i].is_left) { cal.cal[i].sib[5] ^= 1; hit = 1; break; } if (hit) break; }
+			if (S.sub >= 2) k = S.sub - 1;
+			for (i = 0; i < cal.ncal; i++) if (!cal.cal[i].is_left && k-- == 0) { cal.cal[i].sib[5] ^= 1; hit = 1; break; } if (!hit) for (i = 0; i < cal.ncal; i++) if (!cal.cal[i].is_left) { cal.cal[i].sib[5] ^= 1; break; } break; }
 		case R_LEFT_ALTERED: for (i = 0; i < cal.ncal; i++) if (cal.cal[i].is_left) { cal.cal[i].sib[6] ^= 1; break; } break;
 		case R_NO_AGGR_TIME_FIELD: cal.cal_has_aggr = 0; break;
 		case R_EXTRA_RIGHT_LOWEST: case R_EXTRA_LEFT_LOWEST:   /* a surplus link below the leaf position */
@@ -493,7 +496,7 @@ static void run(void) {
 	for (iface = 0; iface < (g_own_ctx ? 2 : 4); iface++) for (tr = 0; tr < 2; tr++) for (ver = 2; ver >= 1; ver--)
 	for (tail = 0; tail <= 3; tail++) for (nch = 1; nch <= 2; nch++) for (target = 0; target < 4; target++) for (pubrec = 0; pubrec < 4; pubrec++)
 	for (reply = 0; reply < R_NREPLY; reply++) {
-		int nsub = (reply == R_STATUS || reply == R_ERROR_PDU) ? NSTATUS : reply == R_RIGHT_ALTERED ? 3 : reply == R_ERROR_WITH_RESPONSE ? 2 : 1;
+		int nsub = (reply == R_STATUS || reply == R_ERROR_PDU) ? NSTATUS : reply == R_RIGHT_ALTERED ? 4 : reply == R_ERROR_WITH_RESPONSE ? 2 : 1;
 		if (iface == 0 && pubrec != 0) continue;                 /* extendTo takes a time, not a record */
 		if (iface != 0 && (target == 1 || target == 3)) continue; /* a record's time is its own target */
 		if (iface != 0 && pubrec == 0 && target != 0) continue;
